@@ -67,6 +67,15 @@ def nasty_strings(rnd, n):
                 if pad >= 0:
                     out.append(mn + "d" * pad + " " + tail)
                     out.append("a" * (ln - 1 - len(tail)) + " " + tail)
+    # every tail of one to three characters of the operand alphabet behind a line that fills the filter buffer (kept characters 98, 99, 100)
+    import itertools
+    tails = ["".join(t) for k in (1, 2, 3) for t in itertools.product("[]-+*x01a,", repeat=k)]
+    for tl in tails:
+        for ln in (98, 99, 100):
+            out.append("a" * (ln - 1 - len(tl)) + " " + tl)
+            pad = ln - len("mov [rax+0x],") - len(tl)
+            if pad > 0:
+                out.append("mov [rax+0x" + "0" * pad + "]," + tl)
     for ln in (97, 98, 99, 100, 101, 102, 150, 1000):
         out.append("mov rax, " + "1" * (ln - 9))
         out.append("mov rax, [rax+" + "r" * (ln - 15) + "]")
@@ -103,7 +112,7 @@ def run(prop, tier, replay=None):
             keep = set(idx[:2500])
             inputs = [x for k, x in enumerate(inputs) if k in keep or x["ab"]["kept"] in (98, 99, 100, 101)]
         recs = [{"id": "cap-%d" % k, "prop": "C09", "status": "Unconstrained", "text": render_abstract(x["ab"]), "ab": x["ab"], "model": x["model"]} for k, x in enumerate(inputs)]
-        for k, s in enumerate(nasty_strings(rnd, 4000 if tier == "quick" else 60000)):
+        for k, s in enumerate(nasty_strings(rnd, 11000 if tier == "quick" else 66000)):
             recs.append({"id": "str-%d" % k, "prop": "C09", "status": "Unconstrained", "text": s.replace("\x00", " ")})
         # well-formed lines are inputs too: a class-covering sample of every TLC-enumerated corpus (the encoder paths run instrumented)
         nval = 0
